@@ -331,6 +331,8 @@ type PostingsIterator struct {
 
 	includeFreqNorm bool
 	includeLocs     bool
+
+	err error // first error returned by Next/Advance, sticky
 }
 
 var emptyPostingsIterator = &PostingsIterator{}
@@ -464,6 +466,20 @@ const locSliceGrowth = 2
 
 // Next returns the next posting on the postings list, or nil at the end
 func (i *PostingsIterator) nextAtOrAfter(atOrAfter uint64) (segment.Posting, error) {
+	if i.err != nil {
+		// an earlier call failed (e.g. a storage read error while loading a
+		// chunk) and may have left the chunk decoders half loaded: keep
+		// reporting the error instead of decoding from them
+		return nil, i.err
+	}
+	rv, err := i.doNextAtOrAfter(atOrAfter)
+	if err != nil {
+		i.err = err
+	}
+	return rv, err
+}
+
+func (i *PostingsIterator) doNextAtOrAfter(atOrAfter uint64) (segment.Posting, error) {
 	docNum, exists, err := i.nextDocNumAtOrAfter(atOrAfter)
 	if err != nil || !exists {
 		return nil, err
